@@ -386,6 +386,17 @@ CATALOGUE_PROGRAMS = [
     "movement MyMovement {\n  walk_up\n  poryswitch(GAME) {\n    RUBY { walk_left step_end }\n    _ { walk_right }\n  }\n  walk_down\n  walk_down * 3\n}\nscript S { a(moves(face_up poryswitch(GAME) { RUBY { jump_left step_end } _: jump_right } face_down * 2)) }\n",
     # exported / local text statements whose body is format()
     'text FormattedDefault { format("Hello there") }\ntext(global) FormattedGlobal { format("Hello again") }\ntext(local) FormattedLocal { format("Bye") }\nscript S { msgbox(format("Hello there")) }\n',
+    # round 16: case values with leading zeros and numerically equal values in different spellings (each keeps its spelling and its
+    # body, labels included); a label repeated across the cases of a statement poryswitch with different scope flags, the selected case
+    # not being the first; a multi-line argument list whose continuation line starts with a keyword; moves() with several steps in a
+    # colon-form case; a repeated poryswitch case value whose bodies differ in their inline data; `!autovar("text")`
+    "script MyScript { switch (var(VAR_MODE)) { case 7: seven  case 010: eight  case 0x10: sixteen  case 10: ten case 00: zero case 8: realeight default: other }  after }\n",
+    "script Demo {\n  switch (var(VAR_RESULT)) {\n    case 1:\n      msgbox(\"one\")\n    case 0x1:\n    Demo_Retry:\n      msgbox(\"again\")\n    case 01:\n    Demo_Third(global):\n      third\n    case 2:\n      goto(Demo_Retry)\n  }\n  release\n  end\n}\n",
+    "script MyScript {\n  lock\n  poryswitch(GAME) {\n    SAPPHIRE {\n      goto(MyScript_Entry)\n    MyScript_Entry:\n      msgbox(\"sapphire\")\n    }\n    RUBY {\n      goto(MyScript_Entry)\n    MyScript_Entry(global):\n      msgbox(\"ruby\")\n    }\n    _ {\n    MyScript_Entry(local):\n      msgbox(\"other\")\n    }\n  }\n  poryswitch(V) { B { Again(global): b } A { Again: a } }\n  release\n}\n",
+    "script S {\n  first\n  setfoo(VAR_A,\n    switch, 3)\n  setbar(\n    if, while\n    , do,\n    break, continue (\n    poryswitch ))\n  last(1)\n}\n",
+    "script Walk {\n  lock\n  poryswitch(GAME) {\n    RUBY: applymovement(2, moves(walk_up * 2 face_down))\n    _: applymovement(2, moves(walk_left))\n  }\n  poryswitch(V) { A: msgbox(\"a\" \"b\") _: nop }\n  waitmovement(0)\n  release\n}\n",
+    "script S {\n  poryswitch(GAME) {\n    RUBY { msgbox(\"first\") }\n    SAPPHIRE { msgbox(\"other\") }\n    RUBY: lock\n  }\n  msgbox(\"tail\")\n  poryswitch(V) {\n    A: lock\n    B { x }\n    A { msgbox(\"second\") applymovement(1, moves(walk_up)) }\n  }\n}\n",
+    "script MyScript {\n  if (!askplayer(\"Do you want it?\\n\"\n      \"Say yes or no.\")) { msgbox(\"Too bad.\") }\n  if (askplayer(ascii\"Again?\")) { msgbox(\"Fine.\") }\n  while (!checkitem(ITEM_A, 1)) { w }\n}\n",
     "script CheckSlot { if (var(VAR_CHOICE) == 0x4000) { a } }\nscript CheckRaw { if (var(VAR_CHOICE) == value(0x4000)) { b } if (var(VAR_SEL) == VAR_TEMP_2 || var(VAR_SEL) == value(VAR_TEMP_2)) { c } }\n",
 ]
 
